@@ -17,6 +17,15 @@ def add_repo_to_path():
             f = getattr(sys.modules[m], "__file__", None) or ""
             if not f.startswith(REPO):
                 del sys.modules[m]
+    # log_call wraps every from_obj/to_obj with inspect.stack() and repr() of the arguments (prohibitive under the tracer and
+    # a realization point).  It only logs; neutralise it before any other repository module is imported.
+    if "suit_generator.logger" not in sys.modules:
+        try:
+            import suit_generator.logger as L
+
+            L.log_call = lambda f: f
+        except Exception:
+            pass
 
 
 def source_sha1(relpath: str) -> str:
